@@ -14,7 +14,15 @@ KNOWN = {'kex': ['curve25519-sha256', 'diffie-hellman-group1-sha1'], 'key': ['ss
 
 def mk_list(prefix, shape):
     """shape items: int n -> symbolic name of n chars; str -> that literal"""
-    return [zx.fresh_str('%s%d' % (prefix, i), s, OL.NAMECH) if isinstance(s, int) else s for i, s in enumerate(shape)]
+    out = []
+    for i, s in enumerate(shape):
+        if isinstance(s, int):
+            out.append(zx.fresh_str('%s%d' % (prefix, i), s, OL.NAMECH))
+        elif isinstance(s, (tuple, list)):          # (literal prefix, n symbolic chars)
+            out.append(s[0] + zx.fresh_str('%s%d' % (prefix, i), s[1], OL.NAMECH))
+        else:
+            out.append(s)
+    return out
 
 
 class Wire(Harness):
@@ -134,7 +142,7 @@ class Text(Harness):
     def __init__(self, shape, client=False, verbose=False, batch=False, comp=('none',)):
         self.shape = {c: tuple(shape[c]) for c in OL.CATS}
         self.client, self.verbose, self.batch, self.comp = client, verbose, batch, tuple(comp)
-        self.name = 'text-%s-%s%s%s-c%d' % ('_'.join(''.join(str(x)[0] for x in self.shape[c]) or 'e' for c in OL.CATS), 'client' if client else 'server',
+        self.name = 'text-%s-%s%s%s-c%d' % ('_'.join(''.join(('G' if isinstance(x, (tuple, list)) else (str(x)[:1] or '0')) for x in self.shape[c]) or 'e' for c in OL.CATS), 'client' if client else 'server',
                                          '-v' if verbose else '', '-b' if batch else '', len(comp))
 
     def params(self):
@@ -194,7 +202,7 @@ class Json(Harness):
     def __init__(self, shape, client=False, comp=('none',)):
         self.shape = {c: tuple(shape[c]) for c in OL.CATS}
         self.client, self.comp = client, tuple(comp)
-        self.name = 'json-%s-%s-c%d' % ('_'.join(''.join(str(x)[0] for x in self.shape[c]) or 'e' for c in OL.CATS), 'client' if client else 'server', len(comp))
+        self.name = 'json-%s-%s-c%d' % ('_'.join(''.join(('G' if isinstance(x, (tuple, list)) else (str(x)[:1] or '0')) for x in self.shape[c]) or 'e' for c in OL.CATS), 'client' if client else 'server', len(comp))
 
     def params(self):
         return {'shape': {c: list(v) for c, v in self.shape.items()}, 'client': self.client, 'comp': list(self.comp)}
@@ -420,6 +428,10 @@ def tasks(tier):
         {'kex': (k['kex'][0], 1), 'key': (1, k['key'][1]), 'enc': (k['enc'][1], 1), 'mac': (k['mac'][0], k['mac'][1])},
         {'kex': (k['kex'][1], k['kex'][1]), 'key': (1, 1), 'enc': (k['enc'][0],), 'mac': (1,)},
     ]
+    # a GSS key exchange of a family the table does not know (shown as advertised, not in the table's wildcard form); two of the same family; names around an
+    # empty name (stray comma in the name-list)
+    shapes.append({'kex': (('gss-group15-sha384-', 2), 1, ('gss-group15-sha384-', 1)), 'key': (1,), 'enc': (1, '', 1), 'mac': ('', 1)})
+    shapes.append({'kex': (1, ''), 'key': (1, '', ''), 'enc': (1,), 'mac': (1, '', 'hmac-sha2-256')})
     er = empty_row_names()
     if all(er.values()):
         shapes.append({c: (er[c], 1) for c in OL.CATS})
